@@ -38,7 +38,7 @@ var NotApplicable = []NA{
 	
 	{"C09", "decision of the upgrader over all requests of a grammar x callback configurations: a pure function of the request bytes; the simulation only ever feeds it requests written by the library's own dialer (C11) or cuts of them (C16) (DESIGN.md §5)."},
 	{"C10", "decision of the dialer over all responses of a grammar and URL forms: a pure function of response bytes and configuration; only its 'bytes after the head stay readable' clause has a delivery dimension and that is checked inside C11/C16 (DESIGN.md §5)."},
-	{"C11", notYet}, 
+	
 	{"C14", "a grid of (server parameters x offers) through a pure negotiator; the only history in it (reset) is covered by C18 (DESIGN.md §5)."},
 	{"C15", "'for arbitrary bytes never panics/hangs' explored by coverage-guided mutation is fuzzing of pure decoders, not simulation; panics or frozen step counters met inside claimed properties' runs are still reported there (DESIGN.md §5)."},
 	{"C17", notYet}, {"C19", notYet}, {"C20", notYet},
@@ -93,6 +93,12 @@ var All = []*Spec{
 		LevelText: "seeded exploration; the reply ledger is decoded by the reference decoder: ping -> one pong with identical payload, pong -> nothing, close -> same code / empty / 1002 (1002 or 1007 for a bad reason) with a body the RFC close rules accept; every reply is a single final frame <=125, masked iff sent by a client, accepted by ws.CheckHeader under the peer's state; return value is ClosedError{code,reason} or a ws.ProtocolError; the control writer never emits a frame >125 or non-final and refuses the write that would cross the limit.",
 		LevelNote: "whether the close reason is echoed and the mask value are not checked; codes 1012-1014 and >=5000 are never generated (left open by the property).",
 		DesignRef: "§4 C08", Technique: "deterministic simulation: seeded control frames through every entry point vs reference reply table"},
+	{ID: "C11", Engine: "wire", Level: "exploration", Quick: 8000, Thorough: 800000,
+		Rule: "each run draws a dialer configuration (0-3 subprotocols incl. an invalid token now and then, 0-3 extension offers with 0-11 parameters, repeated names, extra headers up to several KiB, Host override, URL form, read/write buffer sizes 0/16../4096, plain Upgrade or DebugDialer with either callback) and an upgrader configuration (Upgrader / HTTPUpgrader through a stub net/http hijacker / DebugUpgrader; Protocol, ProtocolCustom, Negotiate incl. wsflate.Extension, deprecated Extension, header writers, rejecting On* callbacks with custom status, buffer sizes, frames sent right behind the 101) and runs request -> response -> verdict on simulated transports with independently seeded segmentation per direction; non-trivial = every run (both peers are real code); distinct = trace digests",
+		Stub: append([]string{"net/http server loop: http.ReadRequest on the simulated bytes + stub ResponseWriter/Hijacker", "NetDial for DebugDialer: returns the simulated conn"}, stubWire...), Assume: assumeCommon,
+		LevelText: "seeded exploration of configuration pairs x chunkings. O1: both peers fail, or both succeed with equal subprotocol and equal extension lists (names and parameters in order), and the values equal a small model of the selectors where the model applies. O2: for one peer on byte-identical input, error, Handshake and bytes written are identical between one-segment/default-buffers and the seeded segmentation/buffer sizes (nonce reseeded identically). O3: Debug wrappers report exactly the request/response bytes, do not change the outcome, and every byte sent behind the 101 is readable once, in order.",
+		LevelNote: "dialer and upgrader run one after the other on recorded bytes (request, then response): for a strict request/response exchange this is equivalent to any interleaving, what an interleaving changes - how much is readable per Read - being the seeded segmentation; user callbacks that break their contract and client bytes pipelined before the response are not generated.",
+		DesignRef: "§4 C11", Technique: "deterministic simulation: real dialer vs real upgrader over simulated transports, seeded segmentation and buffer sizes, differential re-runs"},
 	{ID: "C12", Engine: "wire", Level: "exploration", Quick: 6000, Thorough: 400000,
 		Rule: "each run draws a message (empty, tiny, incompressible, highly compressible, >32 KiB window), a compression level -2..9 and a history of Write(chunk)/Flush/Close on wsflate.Writer; or feeds wsflate.Reader the sync-flushed, tail-stripped output of an independent encoder (klauspost/compress or compress/flate used directly) through a segmented source with or without io.ByteReader; or exercises the frame helpers; or plugs in a faulty compressor (flush without sync marker, last byte dropped, stray byte after the marker, write error); non-trivial = history with more than one write/flush, an independent-encoder source, or a fault; distinct = trace digests",
 		Stub: append([]string{"compressor faults: wrappers around compress/flate injected through wsflate's constructor argument", "independent DEFLATE: github.com/klauspost/compress/flate v1.20.0 and compress/flate called directly"}, stubWire...), Assume: assumeCommon,
